@@ -26,7 +26,7 @@ CHECKS = {
     "baize/responses.py": ["C03", "C05", "C16", "C13", "C02", "C19", "C14"],
     "baize/wsgi/responses.py": ["C05", "C02", "C19", "C06", "C04"],
     "baize/asgi/responses.py": ["C05", "C02", "C19", "C06", "C04"],
-    "baize/datastructures.py": ["C13", "C16", "C12", "C17", "C18", "C04", "C20"],
+    "baize/datastructures.py": ["C13", "C16", "C12", "C05", "C17", "C18", "C04", "C20"],
     "baize/requests.py": ["C12", "C16", "C04"],
     "baize/wsgi/requests.py": ["C10", "C12", "C04", "C18"],
     "baize/asgi/requests.py": ["C10", "C12", "C04", "C18"],
